@@ -208,6 +208,8 @@ VF_API const char* vf_mem_violation(int i) {
   return viol[i];
 }
 
+VF_API void vf_mem_clear_violations(void) { pthread_mutex_lock(&mu); nviol = 0; pthread_mutex_unlock(&mu); }
+
 VF_API void vf_mem_clear(void) {
   pthread_mutex_lock(&mu);
   nviol = 0;
